@@ -6,6 +6,7 @@ import (
 	"context"
 	"fmt"
 	"strings"
+	"time"
 
 	openfgav1 "github.com/openfga/api/proto/openfga/v1"
 	parser "github.com/openfga/language/pkg/go/transformer"
@@ -65,7 +66,11 @@ func lists() []alist {
 		{Name: "two", L: []*openfgav1.Assertion{
 			{TupleKey: atk("doc:1", "viewer", "user:a"), Expectation: false},
 			{TupleKey: atk("doc:2", "editor", "user:b"), Expectation: true}}},
+		// one tuple key asserted three times with the same expectation: with contextual tuples, without, and an
+		// exact duplicate of the first (the element-level alphabet of list shapes is swept in sweep.go)
 		{Name: "ctxtuples", L: []*openfgav1.Assertion{
+			{TupleKey: atk("doc:1", "viewer", "user:a"), Expectation: true, ContextualTuples: ctxTuples},
+			{TupleKey: atk("doc:1", "viewer", "user:a"), Expectation: true},
 			{TupleKey: atk("doc:1", "viewer", "user:a"), Expectation: true, ContextualTuples: ctxTuples}}},
 		{Name: "context", L: []*openfgav1.Assertion{
 			{TupleKey: atk("doc:1", "viewer", "user:a"), Expectation: true, Context: rich},
@@ -142,6 +147,10 @@ type caseT struct {
 	Backend string   `json:"backend"`
 	History []string `json:"history"`
 	Hist    []int    `json:"hist"`
+	// list-structure sweep (sweep.go): the lists (as indices into the assertion alphabet) written one after the
+	// other, list j to pair j%4, on one fresh Server; the deviation is at the last one.
+	Lists     [][]int    `json:"lists,omitempty"`
+	ListNames [][]string `json:"list_names,omitempty"`
 }
 
 type world struct {
@@ -149,16 +158,15 @@ type world struct {
 	ls  []alist
 	evs []event
 	tm  *hx.Pool
+	// element-level assertion alphabet of the list-structure sweep (sweep.go)
+	items []item
 }
 
-// run replays the history on a fresh server; returns the canonical state, whether the run was non-trivial and
-// the list of deviations (signature, description).
-func (w *world) run(backend string, hist []int) (key string, nontrivial bool, dev []hx.Dev) {
+// setup: a fresh Server on a datastore of the backend with the two stores, each holding both model ids.
+func (w *world) setup(backend string) (*server.Server, []string, func()) {
 	ctx := context.Background()
 	ds, rm := w.tm.Get(backend)
-	defer rm()
 	s := hx.NewServer(ds, server.WithRequestTimeout(0))
-	defer s.Close()
 	model := parser.MustTransformDSLToProto(modelDSL)
 	var stores []string
 	for _, n := range storeNames {
@@ -175,6 +183,15 @@ func (w *world) run(backend string, hist []int) (key string, nontrivial bool, de
 		}
 		stores = append(stores, id)
 	}
+	return s, stores, func() { s.Close(); rm() }
+}
+
+// run replays the history on a fresh server; returns the canonical state, whether the run was non-trivial and
+// the list of deviations (signature, description).
+func (w *world) run(backend string, hist []int) (key string, nontrivial bool, dev []hx.Dev) {
+	ctx := context.Background()
+	s, stores, done := w.setup(backend)
+	defer done()
 	ref := newRef()
 	api := int64(0)
 	read := func(st, m int) ([]*openfgav1.Assertion, error) {
@@ -297,12 +314,14 @@ func (w *world) report(backend string, hist []int, dev []hx.Dev) {
 
 func Run(o *core.Options) int {
 	r := core.NewReport(o, "model_checking",
-		"BFS over histories of WriteAssertions(store,model,list)/ReadAssertions(store,model) events, 2 stores x 2 models (same two model ids in both stores) x 6 lists (empty, one, two, with contextual tuples incl. a conditioned one, with context structs, one invalid list); successor = replay of the shortest history on a fresh Server + one event; after every transition all four pairs are read and compared (proto.Equal, element-wise) with map[(store,model)]->last accepted list; states deduplicated by the observed four lists plus the written-bit of each pair; non-trivial = at least one pair holds a non-empty list; distinct by (backend, history)")
+		"BFS over histories of WriteAssertions(store,model,list)/ReadAssertions(store,model) events, 2 stores x 2 models (same two model ids in both stores) x 6 lists (empty, one, two, one tuple key three times [with contextual tuples incl. a conditioned one, without, exact duplicate], with context structs, one invalid list); successor = replay of the shortest history on a fresh Server + one event; after every transition all four pairs are read and compared (proto.Equal, element-wise) with map[(store,model)]->last accepted list; states deduplicated by the observed four lists plus the written-bit of each pair; non-trivial = at least one pair holds a non-empty list; distinct by (backend, history). PLUS a list-structure sweep through the same Server API: an assertion alphabet of 2 tuple keys x 2 expectations x 11 contextual-tuples/context payloads (none; one, two, reordered, duplicated, same-key-other-condition contextual tuples; three context structs incl. the empty one; both) = 44 elements; EVERY sequence of length <= 2 (thorough 3) over it and every sequence of length 3 (thorough 4) over a 12-element sub-alphabet - so lists that repeat a tuple key and/or expectation with different payloads, exact duplicates and all orders are all there - plus lists of length 1-3 holding one rejected element (unknown relation, bad contextual tuple, over the 64 kB limit) at every position; lists are written in a fixed stride order, list j to pair j%4 of a fresh Server per 16 lists (so each overwrites an unrelated list), the written pair is read back and compared element-wise (proto.Equal) with the sequence sent (rejected: with what the pair held before), the pair written just before is re-read, all four at the end; non-trivial = non-empty list, distinct by (backend, sequence)")
 	r.Assume("both backends: memory (fresh datastore per replay) and SQLite (fresh Server and two fresh stores per replay on a per-worker migrated database: opening a database costs more than a replay; fsync disabled)",
 		"stores and models are installed through the datastore interface so that both stores share the same model ids; all events go through Server.WriteAssertions/ReadAssertions",
 		"requests are deep copies of the list prototypes (as a gRPC client would deliver them): aliasing of the caller's slice by the memory backend is not examined",
-		"a rejected (invalid) WriteAssertions counts as not written")
-	w := &world{r: r, ls: lists()}
+		"a rejected (invalid) WriteAssertions counts as not written",
+		"list sweep: the expected read is the sequence of alphabet elements that was sent, nothing is computed from the implementation; which lists are 'rejected' is fixed by construction (they contain an element that the API documents as invalid); a sweep deviation is a verdict when it reappears at the same list with the same signature in 5 re-executions of the chunk prefix (first 3 per signature and backend are re-executed and reported, further ones are counted in sweep_deviations_beyond_reconfirmation_cap)",
+		"list sweep bounds: list length <= 3 (thorough 4), contextual tuples per assertion <= 2, 2 tuple keys; lists close to the size limit other than one 70 kB element are not enumerated")
+	w := &world{r: r, ls: lists(), items: alphabet()}
 	w.evs = events(w.ls)
 	w.tm = hx.NewPool("c31")
 	defer w.tm.Close()
@@ -311,6 +330,10 @@ func Run(o *core.Options) int {
 		if err := core.LoadReplay(o.Replay, &c); err != nil {
 			fmt.Println("replay:", err)
 			return 2
+		}
+		if len(c.Lists) > 0 {
+			w.replaySweep(c)
+			return r.Finish()
 		}
 		for i := 0; i < 5; i++ {
 			_, _, dev := w.run(c.Backend, c.Hist)
@@ -327,6 +350,7 @@ func Run(o *core.Options) int {
 	r.Set("depth", depth)
 	r.Set("events", len(w.evs))
 	perBackend := map[string]any{}
+	t0 := time.Now()
 	for _, backend := range hx.Backends {
 		initKey, _, dev := w.run(backend, nil)
 		w.report(backend, nil, dev)
@@ -347,7 +371,7 @@ func Run(o *core.Options) int {
 				return
 			}
 			nnew++
-			if nsamp < 3 && nnew%97 == 1 {
+			if nsamp < 2 && nnew%97 == 1 {
 				nsamp++
 				r.Sample(map[string]any{"backend": backend, "history": w.names(n.Hist), "all_four_pairs_read_back_equal_to": w.refNames(n.Hist)})
 			}
@@ -359,5 +383,13 @@ func Run(o *core.Options) int {
 		perBackend[backend] = map[string]any{"states": b.States, "transitions": b.Transitions, "states_per_depth": b.PerDepth}
 	}
 	r.Set("per_backend", perBackend)
+	sl, stats := w.sweepLists(o.Thorough())
+	r.Set("list_sweep", stats)
+	t1 := time.Now()
+	for _, backend := range hx.Backends {
+		w.sweep(backend, sl)
+	}
+	// informational only (no verdict depends on time)
+	r.Set("wall_split_s", map[string]float64{"history_bfs": t1.Sub(t0).Seconds(), "list_sweep": time.Since(t1).Seconds()})
 	return r.Finish()
 }
